@@ -20,6 +20,11 @@ def main():
     types = we.group_types(cases + cases2)
     c.rng.shuffle(types)
     pkgs = [p for p in we.make_packages(types, 24, sc) if "cpp" in p.langs]     # two languages needed
+    for p in pkgs:      # records spelled as instances of generic records, defined locally or in an imported package
+        p.style = {"generics": ["none", "local", "imported"][p.idx % 3], "shorthand": p.idx % 2 == 1, "optional": "question", "prim_alias": p.idx % 4 == 1,
+                   "generic_unions": p.idx % 5 == 2}
+        if p.style["generic_unions"] and p.style["generics"] == "none":
+            p.style["generics"] = "local"
     notes = []
     good, bad = we.prepare(pkgs, yardl, home, notes=notes)
     for n in notes:
@@ -42,7 +47,11 @@ def main():
                     continue
                 tag = "r%d-%s%s%s%s" % (r, a, f0, b, f1)
                 # Python writers are fed lazily (generator), from a materialised list, or item by item (+ an empty batch)
-                l1 = we.leg(p, a, FMT[f0], FMT[f1], v, tag + "-1", block=[None, 1, 2][r % 3], mode=["copy", "list", "items"][r % 3])
+                gu = p.style.get("generic_unions")
+                if gu and f0 == "j":
+                    continue        # the NDJSON form of a generic union instance is not specified: only produced by the code itself
+                l1 = we.leg(p, a, FMT[f0], FMT[f1], v, tag + "-1", block=[None, 1, 2][r % 3], mode=["copy", "list", "items"][r % 3],
+                            check_output=not (gu and f1 == "j"))
                 if not l1["ok"]:
                     out.append((p, r, (a, b, f0, f1), 1, v, l1))
                     continue
@@ -61,7 +70,8 @@ def main():
         if not rr["ok"]:
             st = we.blame_step(p, rr["msg"])
             shape = we.type_class(st["t"]) if st else "?"
-            c.violation("C03:%s:hop%d:%s" % (name.replace(" ", ""), hop, shape), rr["msg"],
+            gu = ":generic-union-spelling" if p.style.get("generic_unions") else ""
+            c.violation("C03:%s:hop%d:%s%s" % (name.replace(" ", ""), hop, shape, gu), rr["msg"],
                         {"package_model": open(os.path.join(p.root, "model", "model.yml")).read(), "run": r, "chain": name, "hop": hop,
                          "stderr": rr.get("stderr"), "input_hex": open(rr["in"], "rb").read().hex()[-6000:] if "in" in rr else None,
                          "output_hex": (rr.get("outbytes") or b"").hex()[-6000:]})
